@@ -5,6 +5,7 @@ mod gens;
 mod hist;
 mod p01;
 mod p02;
+mod p03;
 mod p06;
 mod p07;
 mod p08;
@@ -12,6 +13,7 @@ mod p09;
 mod p10;
 mod p11;
 mod p13;
+mod p14;
 mod p15;
 mod p16;
 mod p17;
@@ -94,6 +96,8 @@ fn main() {
         "C13" => p13::run(&cfg, &mut rng, &mut out),
         "C16" => p16::run(&cfg, &mut rng, &mut out),
         "C18" => p18::run(&cfg, &mut rng, &mut out),
+        "C14" => p14::run(&cfg, &mut rng, &mut out),
+        "C03" => p03::run(&cfg, &mut rng, &mut out),
         "C04" => p04::run(&cfg, &mut rng, &mut out),
         "C05" => p05::run(&cfg, &mut rng, &mut out),
         "C12" => p12::run(&cfg, &mut rng, &mut out),
